@@ -13,6 +13,8 @@ import Peppi.Lemmas.C01G
 import Peppi.PremisesViews
 import Peppi.SlppBytes
 import Peppi.Tar
+import Peppi.SlppCut
+import Peppi.PeppiJson
 set_option linter.unusedVariables false
 namespace Peppi.Props.C02
 
@@ -149,5 +151,18 @@ theorem slppRead_written_json (C : Codec KVs) (T : TextOracle) (g : PGame KVs) (
     (hs : SizesOK C.withJsonMeta g startBytes endBytes) (skip : Bool) :
     slppRead C.withJsonMeta T skip (slppWrite C.withJsonMeta g startBytes endBytes) = .ok (if skip then { g with frames := none } else g) :=
   _root_.Peppi.slppRead_written_json C T g startBytes endBytes hstart hend hgecko hs skip
+
+/- from `Peppi.SlppCut` -/
+theorem slppRead_written_json2 (C : Codec KVs) (T : TextOracle) (g : PGame KVs) (startBytes : Bytes) (endBytes : Option Bytes)
+    (hstart : gameStart T startBytes = .ok g.start)
+    (hend : endBytes.map gameEnd = g.fend.map Res.ok)
+    (hgecko : ∀ c, g.gecko = some c → c.2 < 2 ^ 32)
+    (hs : SizesOK C.withJson g startBytes endBytes) (skip : Bool) :
+    slppRead C.withJson T skip (slppWrite C.withJson g startBytes endBytes) = .ok (if skip then { g with frames := none } else g) :=
+  _root_.Peppi.slppRead_written_json2 C T g startBytes endBytes hstart hend hgecko hs skip
+
+/- from `Peppi.PeppiJson` -/
+theorem decPeppiJ_enc (h : Option String) (q : Option Bool) : decPeppiJ (encPeppiJ h q) = .ok ⟨true, h, q⟩ :=
+  _root_.Peppi.decPeppiJ_enc h q
 
 end Peppi.Props.C02
